@@ -237,7 +237,7 @@ def model_check(module, cfg_text, workers=8, timeout=1800, expect_violation=Fals
     """Exhaustive check of a bounded design model.  Returns dict(states, distinct, ok, violated)."""
     res = run_tlc(module, cfg_text, workers=workers, timeout=timeout, extra=extra, java_opts="-Xss64m")
     out = res["out"]
-    violated = re.findall(r"Error: Invariant (\w+) is violated", out) + re.findall(r"Error: Temporal properties were violated", out)
+    violated = re.findall(r"Error: Invariant (\w+) is violated", out) + re.findall(r"Error: Temporal propert(?:ies were|y \w+ was) violated", out)
     finished = "Model checking completed. No error has been found." in out
     if not finished and not violated:
         raise Undecided(f"TLC failed on design model {module}:\n" + out[-6000:])
